@@ -69,6 +69,7 @@ class Run:
         self.known = [k for k in load_known() if k["property"] == pid and k.get("status", "known") == "known"]
         self._known_printed: set[str] = set()
         self._viol_sigs: set[str] = set()
+        self._inst_counts: dict[str, int] = {}
         self.max_samples = 8
 
     # -- accounting -------------------------------------------------------
@@ -110,6 +111,11 @@ class Run:
         `instance` identifies the concrete failing input for known entries that list theirs."""
         k = self.match_known(signature, instance)
         if k is None and instance is not None:
+            # unlisted input of an instance-listed signature: report a few, count the rest
+            self._inst_counts[signature] = self._inst_counts.get(signature, 0) + 1
+            if self._inst_counts[signature] > 3:
+                self.labels["further_unlisted_instances:" + signature] += 1
+                return False
             signature = signature + "@" + instance
         if k is not None:
             self.excluded_known[k["signature"] if "signature" in k else k["signature_prefix"]] += 1
